@@ -130,8 +130,13 @@ def same(a, b):
         return False
     if not np.array_equal(np.asarray(a), np.asarray(b), equal_nan=a.dtype.kind == "f"):
         return False
+    if set(a.coords) != set(b.coords):          # including non-dimension coordinates (spatial_ref, 2-d lon / lat ...)
+        return False
     for c in a.coords:
-        if c not in b.coords or not np.array_equal(np.asarray(a[c]), np.asarray(b[c])):
+        ca, cb = a[c], b[c]
+        if set(ca.dims) != set(cb.dims):
+            return False
+        if not np.array_equal(np.asarray(ca), np.asarray(cb.transpose(*ca.dims))):
             return False
     return True
 
@@ -147,7 +152,10 @@ def run(ctx: core.Ctx):
     nt = 12
     cube, nd = make_cube(rng, nt)
     t = np.datetime64("2000-01-01") + (np.arange(nt) * 10).astype("timedelta64[D]")
-    coords = {"time": t, "y": np.arange(cube.shape[1]) * 1.5, "x": np.arange(cube.shape[2]) * 2.0}
+    yy2, xx2 = np.meshgrid(np.arange(cube.shape[1]) * 1.5, np.arange(cube.shape[2]) * 2.0, indexing="ij")
+    coords = {"time": t, "y": np.arange(cube.shape[1]) * 1.5, "x": np.arange(cube.shape[2]) * 2.0,
+              # time-independent non-dimension coordinates, as geospatial cubes carry them
+              "spatial_ref": 4326, "lon": (("y", "x"), xx2 + 30.0), "lat": (("y", "x"), 10.0 - yy2)}
     base = xr.DataArray(cube, dims=("time", "y", "x"), coords=coords, attrs={"nodata": nd})
     ops_ = operations(nt)
     chunkings = [{"y": 1, "x": 1}, {"y": (2, 1), "x": (1, 3)}, {"y": -1, "x": -1}]
